@@ -1,6 +1,9 @@
 (* Runs coq/ExpPP.v (extracted).  One expression per line in prefix form:
      A<name> | B<op id>(<e>;<e>) | U<op id>(<e>)
-   -> the tokens print_top produces: atoms by name, operators as op<id>, ( and ) *)
+   -> the tokens print_top produces: atoms by name, operators as op<id>, ( and )
+   "F <expr>"   -> the flattened tree (ExpPP.flat) in a canonical spelling
+   "R <tokens>" -> the tree ExpParse.parse reads from a token list (a:<name> op<id> un<id> ( )),
+                   same spelling, or NONE *)
 open Conv
 open ExpPP
 
@@ -29,12 +32,35 @@ let parse (s : string) : expr =
     end in
   go ()
 
+let rec show_ct (t : ct) : string =
+  match t with
+  | CA a -> String.lowercase_ascii (string_of_bytes a)
+  | CU (o, x) -> "u" ^ string_of_int (int_of_n o) ^ "(" ^ show_ct x ^ ")"
+  | CB (o, l, r) -> "b" ^ string_of_int (int_of_n o) ^ "(" ^ show_ct l ^ ";" ^ show_ct r ^ ")"
+  | CC (o, xs) -> "c" ^ string_of_int (int_of_n o) ^ "(" ^ String.concat ";" (Stdlib.List.map show_ct xs) ^ ")"
+
+let tok_of_string (w : string) : tok =
+  let n = String.length w in
+  if w = "(" then TLP else if w = ")" then TRP
+  else if n > 2 && String.sub w 0 2 = "a:" then TAtom (bytes_of_string (String.sub w 2 (n - 2)))
+  else if n > 2 && String.sub w 0 2 = "op" then TOp (n_of_int (int_of_string (String.sub w 2 (n - 2))))
+  else if n > 2 && String.sub w 0 2 = "un" then TUn (n_of_int (int_of_string (String.sub w 2 (n - 2))))
+  else failwith ("bad token " ^ w)
+
 let () =
   try
     while true do
       let line = String.trim (input_line stdin) in
       if line <> "" then begin
         (* "W <expr>": inside a WHERE clause with labels exppp calls EXPR_out( expr, max_indent ): paren is on *)
+        if String.length line > 2 && line.[0] = 'F' && line.[1] = ' ' then
+          print_string (show_ct (flat (parse (String.sub line 2 (String.length line - 2)))) ^ "\n")
+        else if String.length line > 2 && line.[0] = 'R' && line.[1] = ' ' then begin
+          let ws = Stdlib.List.filter (fun w -> w <> "") (String.split_on_char ' ' (String.sub line 2 (String.length line - 2))) in
+          match ExpParse.parse (Stdlib.List.map tok_of_string ws) with
+          | Some t -> print_string (show_ct t ^ "\n")
+          | None -> print_string "NONE\n"
+        end else
         let wctx = String.length line > 2 && line.[0] = 'W' && line.[1] = ' ' in
         let line = if wctx then String.sub line 2 (String.length line - 2) else line in
         let e = parse line in
